@@ -465,6 +465,11 @@ def inject(spec, text, contract, warnings, vac=False):
             for l in lines:
                 out.add('        ' + l, meta)
     if spec.trusted:
+        if spec.extra.get('demoted'):
+            # demoted by the driver (its text no longer type-checks with the annotations, or calls something that is not in the
+            # generated file): contract only, and NO body text, so that what made it fail to compile cannot fail the whole file
+            out.lines.append(('{ unimplemented!() }', base))
+            return out
         for l in body.split('\n'):
             out.lines.append((l, base))
         return out
@@ -665,6 +670,8 @@ def build(out_path, only=None):
     for sp in specs:
         if only and sp.key not in only and sp.name not in only:
             continue
+        if 'simd::neon' in demote and sp.source == 'simd/neon.rs':
+            continue        # the NEON back end is left out of this run as a whole (the driver reports it as undecided)
         con = sp
         if sp.use_contract:
             toks = sp.use_contract.split()
@@ -677,6 +684,14 @@ def build(out_path, only=None):
                 sub = lambda l: re.sub(r'\bbytes\b', toks[2], l)
                 con.requires = [sub(l) for l in con.requires]
                 con.ensures = [(n, t, [sub(l) for l in ls]) for n, t, ls in con.ensures]
+        if sp.source == 'simd/neon.rs':
+            # the NEON back end cannot be built for this host; what is decided about it (on emulated intrinsics) is reported under
+            # C12 / C13 / C01 only, so that a neon.rs the emulation cannot process leaves the message-level properties decided
+            import copy
+            keep = lambda ts: [t for t in (ts or []) if t in ('C01', 'C12', 'C13', 'C20')]
+            con = copy.deepcopy(con)
+            con.ensures = [(n, keep(t if t is not None else sp.tags), ls) for n, t, ls in con.ensures]
+            sp.tags = keep(sp.tags)
         if sp.mode == 'expanded':
             text = get_fn(src.expanded(), sp.name, sp.scope)
         else:
@@ -805,25 +820,29 @@ def assemble(out_path, only=None):
         A('  }')
     # NEON: this host has no aarch64 target, so `core::arch::aarch64` is replaced by the emulation module (rule N1); the
     # block functions are external real text (Kani leaves over all 2^128 blocks), the three scanner loops are verified
+    skip_neon = 'simd::neon' in set(x for x in os.environ.get('VERIF_ASSUME_BODY', '').split(',') if x)
     A('  pub mod neon {')
-    A('    use vstd::prelude::*;')
-    A('    use crate::*;')
-    A('    #[path="%s/kani/neon_emu.rs"] pub mod neon_emu;' % VERIF)
-    if neon.count('use core::arch::aarch64::*;') != 1:
-        raise AnchorLost('simd/neon.rs: import of core::arch::aarch64 not found exactly once (rule N1)')
-    A('    use self::neon_emu::*;   // N1: stands for `use core::arch::aarch64::*;`')
-    ne_ext = dict(fn='external', kind='external', name='neon-leaves', tags=[])
-    A('    // ---- external (Kani leaves), real text')
-    A(strip_doc_comments(get_fn(neon, 'bit_set')), ne_ext)
-    A(strip_doc_comments(get_fn(neon, 'build_bitmap')), ne_ext)
-    A(get_item(neon, r'^const BITMAPS', 'semi'), ne_ext)
-    for f in ('match_header_name_char_16_neon', 'match_url_char_16_neon', 'match_header_value_char_16_neon', 'offsetz', 'offsetnz'):
-        A(strip_doc_comments(get_fn(neon, f)), ne_ext)
-    A('    verus! {')
-    out.extend(indent(read_spec('neon_leaves.rs'), 4))
-    out.extend(indent(fns_in('simd::neon'), 4))
-    A('    } // verus!')
-    A('  }')
+    if not skip_neon:
+        A('    use vstd::prelude::*;')
+        A('    use crate::*;')
+        A('    #[path="%s/kani/neon_emu.rs"] pub mod neon_emu;' % VERIF)
+        if neon.count('use core::arch::aarch64::*;') != 1:
+            raise AnchorLost('simd/neon.rs: import of core::arch::aarch64 not found exactly once (rule N1)')
+        A('    use self::neon_emu::*;   // N1: stands for `use core::arch::aarch64::*;`')
+        ne_ext = dict(fn='external', kind='external', name='neon-leaves', tags=[])
+        A('    // ---- external (Kani leaves), real text')
+        A(strip_doc_comments(get_fn(neon, 'bit_set')), ne_ext)
+        A(strip_doc_comments(get_fn(neon, 'build_bitmap')), ne_ext)
+        A(get_item(neon, r'^const BITMAPS', 'semi'), ne_ext)
+        for f in ('match_header_name_char_16_neon', 'match_url_char_16_neon', 'match_header_value_char_16_neon', 'offsetz', 'offsetnz'):
+            A(strip_doc_comments(get_fn(neon, f)), ne_ext)
+        A('    verus! {')
+        out.extend(indent(read_spec('neon_leaves.rs'), 4))
+        out.extend(indent(fns_in('simd::neon'), 4))
+        A('    } // verus!')
+        A('  }')
+    else:
+        A('  }')
     A('  pub mod runtime {')
     A('    use vstd::prelude::*;')
     A('    use crate::*;')
